@@ -65,8 +65,10 @@ def literals():
     # escaped characters (newline, tab, carriage return, backslash) in String elements and in the String members of
     # pairs / triples / lists — each typed front end resolves the escapes Debug writes (seeded change C18j: the tuple
     # front end was left on the old helper contract)
-    esc = [("a\nb", 'a\\nb'), ("t\tc", 't\\tc'), ("back\\slash", 'back\\\\slash'), ("cr\rx", 'cr\\rx'), ("plain", "plain"), ("", "")]
-    for k, sh in enumerate([[1], [2], [3], [2, 2], [1, 3], [2, 1, 2]]):
+    esc = [("a\nb", 'a\\nb'), ("t\tc", 't\\tc'), ("back\\slash", 'back\\\\slash'), ("cr\rx", 'cr\\rx'), ("plain", "plain"), ("", ""),
+           # apostrophes: Debug leaves them alone inside a str (seeded change C18n: the tuple front end stripped them)
+           ("it's", "it's"), ("'", "'"), ("o'clock 'x'", "o'clock 'x'")]
+    for k, sh in enumerate([[1], [2], [3], [2, 2], [1, 3], [2, 1, 2], [4], [3, 3], [5]]):
         n = prod(sh)
         pick = [esc[(i + k) % len(esc)] for i in range(n)]
         out.append(("string", "String", sh, [v for v, _ in pick], nest(sh, ['"' + r + '"' for _, r in pick])))
